@@ -428,6 +428,8 @@ void run_meta(J const &plan, RunResult &res) {
       if (d < best) { best = d; best_s = kv.first; }
     }
     std::string who = "walker " + std::to_string(a) + " step " + std::to_string(step) + ", mirror of walker " + std::to_string(b);
+    if (!match && getenv("CVSIM_DEBUG")) { std::string st; if (fs().get("/simfs/w" + std::to_string(b) + "/out.colvars.mtd.w" + std::to_string(b) + ".state", st)) fprintf(stderr, "peer state file (%zu bytes):\n%s\n", st.size(), st.substr(0, 1500).c_str()); }
+    if (!match && getenv("CVSIM_DEBUG")) { fprintf(stderr, "prefix_check: no match; closest prefix ends at step %ld with max difference %.6g (tolerance %.6g); held:", best_s, best, tol); for (double v : held) fprintf(stderr, " %.8g", v); fprintf(stderr, "\n"); }
     if (!match) {
       // classify: explain what is held as a multiset of the peer's hills (multiplicity 0..2 each):
       // depth-first search, pruned as soon as a residual becomes negative (hills are non-negative)
@@ -453,7 +455,21 @@ void run_meta(J const &plan, RunResult &res) {
         cur[i] = 0;
         return false;
       };
-      bool explained = dfs(0);
+      // first the simplest explanation: a prefix of the peer's hills plus a later contiguous run (one gap) — with wide, strongly
+      // overlapping hills the general search below is ill-conditioned and may find a spurious combination first
+      bool explained = false;
+      {
+        size_t n = hv.size();
+        std::vector<std::vector<double>> pref(n + 1, std::vector<double>(nb, 0.0));
+        for (size_t i = 0; i < n; i++) for (size_t k = 0; k < nb; k++) pref[i + 1][k] = pref[i][k] + hv[i][k];
+        for (size_t a1 = 0; a1 <= n && !explained; a1++)           // hills [0, a1) present
+          for (size_t b1 = a1 + 1; b1 < n && !explained; b1++)      // hills [a1, b1) missing
+            for (size_t c1 = b1 + 1; c1 <= n && !explained; c1++) { // hills [b1, c1) present
+              double mx = 0; for (size_t k = 0; k < nb; k++) mx = std::max(mx, std::fabs(held[k] - (pref[a1][k] + pref[c1][k] - pref[b1][k])));
+              if (mx <= tol) { best_m.assign(n, 0); for (size_t i = 0; i < a1; i++) best_m[i] = 1; for (size_t i = b1; i < c1; i++) best_m[i] = 1; explained = true; }
+            }
+      }
+      if (!explained) explained = dfs(0);
       std::vector<std::pair<long, int>> mult;
       if (explained) for (size_t i = hv.size(); i-- > 0;) mult.emplace_back(hs[i], best_m[i]);
       if (explained) resid.assign(nb, 0.0);
